@@ -445,6 +445,13 @@ class Interp:
             if not isinstance(o, list):
                 return NOT_HANDLED
             args = n.get('args', [])
+            if last == 'emplace_back' and len(args) == 2 and 'basic_string_view' in (n.get('callee') or ''):
+                p_, ln = (self.eval(fn, S[x], env) for x in args)       # string_view(pointer, length) constructed in place
+                if isinstance(p_, tuple) and p_[0] == 'sptr' and isinstance(ln, int):
+                    if not (0 <= p_[2] and ln >= 0 and p_[2] + ln <= len(p_[1])):
+                        raise OutOfFragment('string_view [%d,%d) outside a buffer of %d bytes at %s' % (p_[2], p_[2] + ln, len(p_[1]), fn.loc(n)))
+                    o.append(bytes(p_[1][p_[2]:p_[2] + ln]))
+                    return None
             if last in ('emplace_back', 'push_back') and len(args) == 1:
                 v = self.eval(fn, S[args[0]], env)
                 o.append(v)
